@@ -3,6 +3,7 @@ import Req.Client.Retry
 import Req.Client.Attempt
 import Req.Client.Backoff
 import Req.Client.RetryDyn
+import Req.Client.Exchange
 /-!
 Driver lanes of C10.
 
@@ -440,7 +441,67 @@ def lanePolicy : List String → String
     r.getD "bad-op"
   | _ => "bad-op"
 
+/-! ### `c10inner <honest> <proto> <N|-2> <method> <idem> <digest> <kind> <script> <reusedObs>` -/
+
+section inner
+open Req.Exchange
+
+def decCut (s : String) : Option Cut :=
+  match s with
+  | "h" => some .headers | "p" => some .half | "f" => some .full | _ => none
+
+def decAct (s : String) : Option Act :=
+  let rest := dropS s 2
+  match takeS s 2 with
+  | "ok" => rest.toNat?.map .answer
+  | "rd" => rest.toNat?.map .redirect
+  | "dg" => if rest == "" then some .challenge else none
+  | "ga" => (decCut (dropS rest 1)).map .goAway
+  | "rs" => (decCut (dropS rest 1)).map .refused
+  | "cl" => (decCut (dropS rest 1)).map .hangUp
+  | _ => none
+
+def decKind (s : String) : Option BodyKind :=
+  match s with
+  | "n" => some .none
+  | "b" | "s" | "u" | "m" | "f" | "x" => some .fresh
+  | "r" | "c" => some .once
+  | "p" => some .pipe
+  | _ => none
+
+def encSent : Sent → String
+  | .none => "none" | .full => "full" | .part => "part" | .drained => "drained"
+
+def laneInner : List String → String
+  | [honest, proto, n, method, idem, digest, kind, script, obs] =>
+    let r : Option String := do
+      let honest ← decBool honest
+      let proto ← if proto == "h1" then some Proto.h1 else if proto == "h2" then some Proto.h2 else none
+      let retries ← if n == "-2" then some none else n.toInt?.map some
+      let idem ← decBool idem
+      let idempotent := idem || method == "GET" || method == "HEAD" || method == "OPTIONS" || method == "TRACE"
+      let cfg : Cfg := ⟨proto, retries, idempotent, ← decBool digest, ← decKind kind, honest⟩
+      let acts ← (splitList "," script).mapM decAct
+      let reused ← (splitList "," obs).mapM decBool
+      -- the peer answers 200 once its script has run out
+      let len := max acts.length reused.length + 2
+      let sc := (List.range len).map fun i => (acts.getD i (.answer 200), reused.getD i false)
+      let res := run cfg sc
+      let exs := res.1.map fun e =>
+        "E" ++ toString e.attempt ++ ":" ++ method ++ ":" ++ encSent e.sent ++ (if e.auth then "+auth" else "")
+      let fin := match res.2 with
+        | .status c ra => "F" ++ toString c ++ "@" ++ toString ra
+        | .err ra => "Ferr@" ++ toString ra
+        | .refused => "Frefused"
+        | .exhausted => "Fexhausted"
+      pure (" ".intercalate (exs ++ [fin]))
+    r.getD "bad-op"
+  | _ => "bad-op"
+
+end inner
+
 def lanes : List (String × (List String → String)) := [
+  ("c10inner", laneInner),
   ("c10run", laneRun true),
   -- same model, the per-attempt wire requests not printed (the e2e lane compares raw captures itself)
   ("c10trace", laneRun false),
